@@ -5,7 +5,7 @@ import re
 from ..srcmodel import AnalysisError, Unknown, Regex, unparse
 from .. import facts as F
 from .. import pipeline as P
-from ..microeval import eval_term
+from ..microeval import eval_term, run_function
 from ..relang import Algebra, Unsupported
 
 Q = "ural.quote."
@@ -247,12 +247,13 @@ def rule_safe_urlsplit(ctx, rule):
         arg = r.term[2][0]
         ok = False
         if arg[0] == "phi":
+            # normal form: phi(PROTOCOL_RE.match(url) ? url : scheme + '://' + url)
             c = arg[1]
-            exact = c == ("not", ("call", "re.match", (("global", "ural.patterns.PROTOCOL_RE"), url), ())) or c == ("not", ("call", "ural.patterns.PROTOCOL_RE.match", (url,), ()))
-            prefixed = arg[2][0] == "binop" and arg[2][1] == "Add" and arg[2][3] == url and arg[3] == url
+            exact = c == ("call", "ural.patterns.PROTOCOL_RE.match", (url,), ())
+            prefixed = arg[3][0] == "binop" and arg[3][1] == "Add" and arg[3][3] == url and arg[2] == url
             ok = exact and prefixed
         ctx.ob(rule, "safe_urlsplit/scheme-added-iff-PROTOCOL_RE-does-not-match", ok,
-               "safe_urlsplit decides whether to prepend a scheme with `%s`, not with `not PROTOCOL_RE.match(url)` alone: a scheme-less url that merely contains '://' or '//' further on loses its host ('l.facebook.com/l.php?u=http://lemonde.fr')" % (P.show(arg[1], maxdepth=4) if arg[0] == "phi" else P.show(arg, maxdepth=3)),
+               "safe_urlsplit decides whether to keep the url as it is with `%s`, not with `PROTOCOL_RE.match(url)` alone: a scheme-less url that merely contains '://' or '//' further on loses its host ('l.facebook.com/l.php?u=http://lemonde.fr')" % (P.show(arg[1], maxdepth=4) if arg[0] == "phi" else P.show(arg, maxdepth=3)),
                ut.site(sref.node), witness="bit.ly/1sNZMwL?next=https://twitter.com/x")
     pre = [r for r in rets if r.term == url]
     ctx.ob(rule, "safe_urlsplit/pre-parsed-returned-as-is", any(any(c[0] == "call" and c[1] == "builtins.isinstance" for c, pol in r.conds if pol) for r in pre), "safe_urlsplit does not return an already parsed url unchanged", ut.site(sref.node))
@@ -280,3 +281,32 @@ def rule_special_hosts(ctx, rule):
     fn = hm.func("is_special_host").node
     ok = "SPECIAL_HOSTS_RE.match(hostname)" in unparse(fn) or "re.match(SPECIAL_HOSTS_RE, hostname)" in unparse(fn)
     ctx.ob(rule, "is_special_host/matches-the-hostname", ok, "is_special_host does not apply SPECIAL_HOSTS_RE.match to the hostname", hm.site(fn))
+
+
+def netloc_template(ctx, rule):
+    ctx.rule(rule, "netloc template: unsplit_netloc, interpreted on marker values, yields [user][':'password]['@']host[':'port] for every presence pattern of its four arguments (a port it is handed is written whatever its number: which ports are default is the caller's, scheme-aware, decision), with an IPv6 host re-bracketed")
+    repo = ctx.repo
+    utils = repo.mod("utils")
+    ref = utils.func("unsplit_netloc")
+    ctx.fn(ref.qualname)
+    site = utils.site(ref.node)
+    n = 0
+    for host, hexp in (("H", "H"), ("::1", "[::1]")):
+        for u in ("U", None):
+            for p in ("P", None):
+                for port in (8080, 80, 443, None):
+                    n += 1
+                    exp = hexp
+                    if u or p:
+                        exp = ((u or "") + (":" + p if p else "")) + "@" + exp
+                    if port is not None:
+                        exp += ":%d" % port
+                    try:
+                        got = run_function(repo, ref, [u, p, host, port])
+                    except Unknown as e:
+                        ctx.undecided(rule, "unsplit_netloc not interpretable: %s" % e)
+                        return
+                    ctx.ob(rule, "unsplit_netloc/(%s,%s,%s,%s)" % (u, p, host, port), got == exp,
+                           "unsplit_netloc(%r, %r, %r, %r) gives %r, expected %r (RFC 3986 authority: [user[':'password]'@'] host [':'port], IPv6 literals bracketed)" % (u, p, host, port, got, exp), site,
+                           witness="http://%s%s" % ((":pw@" if not u and p else ""), ("[::1]" if host != "H" else "a.com") + (":%d/" % port if port else "/")), sample="(%s,%s,%s,%s) -> %r" % (u, p, host, port, got))
+    ctx.require_instances(rule, n, 32, "presence patterns")
